@@ -22,7 +22,9 @@ pub struct Lpg {
 
 /// Canonical dump of an LpgStore through its public accessors, plus cross-structure agreement.
 fn lpg_observe(o: &Lpg) -> String {
-    let st = &o.st;
+    store_observe(&o.st)
+}
+fn store_observe(st: &LpgStore) -> String {
     let mut s = String::new();
     let ids = st.node_ids();
     for id in &ids {
@@ -44,7 +46,9 @@ fn lpg_observe(o: &Lpg) -> String {
 
 /// The derived lookup structures agree with the primary data (C14's invariant at quiescence).
 fn lpg_invariants(o: &Lpg, _r: &[Vec<String>]) -> Vec<(String, String)> {
-    let st = &o.st;
+    store_invariants(&o.st)
+}
+fn store_invariants(st: &LpgStore) -> Vec<(String, String)> {
     let mut out = vec![];
     let ids = st.node_ids();
     if st.node_count() != ids.len() {
@@ -984,4 +988,86 @@ pub fn hn_scenarios(three: bool) -> Vec<Scenario<Hn>> {
         invariants,
         linearizable: false,
     }]
+}
+
+// ---------------------------------------------------------------------------
+// S9: database-level scenarios - the public GrafeoDB API and auto-commit GQL statements from two threads
+// (statement pipeline: parse -> bind -> optimize -> plan -> execute against the shared store, catalog and caches)
+// ---------------------------------------------------------------------------
+
+use grafeo_engine::GrafeoDB;
+
+pub struct Db {
+    pub db: GrafeoDB,
+}
+fn db_make() -> Db {
+    // nodes 0,1 (L, k=0 / k=1), edge 0: 0->1 ; node 2 (L, k=0) detached
+    let db = GrafeoDB::new_in_memory();
+    let a = db.create_node(&["L"]);
+    let b = db.create_node(&["L"]);
+    let c = db.create_node(&["L"]);
+    db.create_edge(a, b, "K");
+    db.set_node_property(a, "k", Value::Int64(0));
+    db.set_node_property(b, "k", Value::Int64(1));
+    db.set_node_property(c, "k", Value::Int64(0));
+    Db { db }
+}
+fn db_observe(o: &Db) -> String {
+    store_observe(o.db.store())
+}
+fn db_invariants(o: &Db, _r: &[Vec<String>]) -> Vec<(String, String)> {
+    store_invariants(o.db.store())
+}
+fn q(o: &Db, text: &str) -> String {
+    match o.db.execute(text) {
+        Ok(r) => {
+            let mut rows: Vec<String> = r.rows.iter().map(|row| format!("{row:?}")).collect();
+            rows.sort();
+            format!("ok{rows:?}")
+        }
+        Err(e) => format!("err:{}", e.to_string().chars().take(60).collect::<String>()),
+    }
+}
+
+pub fn db_scenarios() -> Vec<Scenario<Db>> {
+    let ops: Vec<(&'static str, fn(&Db, usize) -> String)> = vec![
+        ("gql:INSERT(:L{k:5})", |o, _| q(o, "INSERT (:L {k: 5})")),
+        ("gql:INSERT(:M{k:6})", |o, _| q(o, "INSERT (:M {k: 6})")),
+        ("gql:count(L)", |o, _| q(o, "MATCH (n:L) RETURN COUNT(n)")),
+        ("gql:SET k=7 WHERE k=0", |o, _| q(o, "MATCH (n:L) WHERE n.k = 0 SET n.k = 7")),
+        ("gql:DETACH DELETE k=0", |o, _| q(o, "MATCH (n:L) WHERE n.k = 0 DETACH DELETE n")),
+        ("gql:one-hop", |o, _| q(o, "MATCH (a)-[:K]->(b) RETURN a.k, b.k")),
+        ("api:create_node(L)", |o, _| { o.db.create_node(&["L"]); "created".into() }),
+        ("api:delete_node(0)", |o, _| format!("{}", o.db.delete_node(n(0)))),
+        ("api:create_edge(2,0)", |o, _| { o.db.create_edge(n(2), n(0), "K"); "created".into() }),
+        ("api:set(2,k,9)", |o, _| { o.db.set_node_property(n(2), "k", Value::Int64(9)); "()".into() }),
+    ];
+    let mut v = vec![];
+    for i in 0..ops.len() {
+        for j in i..ops.len() {
+            let (a, b) = (&ops[i], &ops[j]);
+            let read = |s: &str| s == "gql:count(L)" || s == "gql:one-hop";
+            if read(a.0) && read(b.0) {
+                continue;
+            }
+            let name: &'static str = Box::leak(format!("S9:{}||{}", a.0, b.0).into_boxed_str());
+            let bname: &'static str = if i == j { Box::leak(format!("{}'", b.0).into_boxed_str()) } else { b.0 };
+            // An edge created towards a node that is being deleted, and a property written to it, are outside the
+            // documented domain of the non-transactional API (the caller must not use an id it is deleting): only
+            // the invariants are judged for those pairs.
+            let touches_deleted = |s: &str| s == "api:create_edge(2,0)" || s == "api:set(2,k,9)";
+            let deletes = |s: &str| s == "api:delete_node(0)" || s == "gql:DETACH DELETE k=0";
+            let lin = !((touches_deleted(a.0) && deletes(b.0)) || (touches_deleted(b.0) && deletes(a.0)));
+            v.push(Scenario {
+                name,
+                what: "database-level pair: auto-commit GQL statements and GrafeoDB API calls from two threads; linearizable, lookup structures agree, no panic, no deadlock",
+                make: db_make,
+                threads: vec![vec![Op { name: a.0, f: a.1 }], vec![Op { name: bname, f: b.1 }]],
+                observe: db_observe,
+                invariants: db_invariants,
+                linearizable: lin,
+            });
+        }
+    }
+    v
 }
